@@ -466,12 +466,21 @@ static Space make_space(const std::string& id) {
       S.ops.push_back(opEval(r, "source_rho_u", "S", 0));
       if (full) { S.ops.push_back(opEval(r, "source_t", "SS", 0)); S.ops.push_back(mk(GETNAME, r)); S.ops.push_back(mk(GETDIM, r)); S.ops.push_back(mk(LIST, r)); }
     }
-    S.key_last = (id == "c12" || g_tier);  // registry code is where call-order state would live: keep states apart by their last operation (C16 quick: plain observation)
+    S.key_last = (id == "c12");  // registry code is where call-order state would live: C12 keeps states apart by their last operation; C16 (misuse from every visible state) uses the plain observation
     if (id == "c16" || id == "c12x") {  // misuse operations from every state
       for (int r = 0; r < 2; r++) { S.ops.push_back(opSel(r, "nosuch")); S.ops.push_back(opInit(r, "c", "no_such_solution")); S.ops.push_back(opInit(r, "a", "euler_1dd")); }
       // a handle spelled like the catalogue name of a solution some handle may hold: unknown handle while unregistered (fatal), an ordinary handle once registered (thorough)
       for (int r = 0; r < 2; r++) for (const char* s : {"euler_1d", "heateq_2d_steady_const"}) S.ops.push_back(opSel(r, s));
-      if (g_tier) S.ops.push_back(opInit(0, "euler_1d", "heateq_2d_steady_const"));
+    }
+  } else if (id == "c16n") {
+    // handles and catalogue names share one namespace of strings but must never be confused: a handle may be spelled like a
+    // solution name (its own or another one's); selecting such a spelling is an error exactly while no handle has it
+    S.solutions = {"euler_1d", "heateq_2d_steady_const"}; S.key_last = g_tier;
+    for (int r = 0; r < (g_tier ? 2 : 1); r++) {
+      for (const char* h : {"a", "euler_1d"}) for (const char* sol : {"euler_1d", "heateq_2d_steady_const"}) { if (r && std::string(h) == "a") continue; S.ops.push_back(opInit(r, h, sol)); }
+      for (const char* h : {"a", "euler_1d", "heateq_2d_steady_const", "Euler_1d", "euler-1d"}) S.ops.push_back(opSel(r, h));
+      S.ops.push_back(opSet(r, "u_0", 7.5L)); S.ops.push_back(mk(GETNAME, r));
+      if (r == 0) { S.ops.push_back(opEval(r, "source_rho_u", "S", 0)); S.ops.push_back(opInit(r, "heateq_2d_steady_const", "no_such_solution")); S.ops.push_back(opInit(r, "euler_1d", "euler_1dd")); }
     }
   } else if (id == "c12v") {
     // three handles, two solution types that own vector parameters (heap-allocated per instance): isolation of vectors, re-init resets them
